@@ -1,1 +1,16 @@
-/-! Property theorems for C03 — placeholder until the property's model is built. -/
+import FcpptProofs.C03.Parse
+/-!
+# C03 — property theorems (see notes/C03.md for the clause-by-clause coverage)
+-/
+namespace Fcppt.C03
+
+/-- every successful `Parser::parse` leaves a sublist of its input state (order preserved) -/
+theorem parse_state_sublist {f : Nat} {p : OP} {st : List Arg} {c : Ctx} {st' : List Arg} {r : Rec} {lg : Log}
+    (h : parse f p st c = .ok (st', r, lg)) : st'.Sublist st := (parse_acc f p st c h).sub
+
+/-- remaining arguments and logged (consumed) arguments partition the input state -/
+theorem parse_log_partition {f : Nat} {p : OP} {st : List Arg} {c : Ctx} {st' : List Arg} {r : Rec} {lg : Log}
+    (h : parse f p st c = .ok (st', r, lg)) : (st'.map Prod.fst ++ lg.map Prod.fst).Perm (st.map Prod.fst) :=
+  (parse_acc f p st c h).perm
+
+end Fcppt.C03
